@@ -76,7 +76,7 @@ def _walk_types(T):
         elif tag == "utuple":
             for e in T[1] + [T[2]] + T[3]:
                 yield from _walk_types(e)
-        elif tag == "newtype":
+        elif tag in ("newtype", "fwd"):
             yield from _walk_types(T[2])
         elif tag in ("enum", "flag", "literal", "text"):
             return
